@@ -277,6 +277,68 @@ struct numeric_limits<char8_t> {
     static constexpr float_round_style round_style = round_toward_zero;
 };
 
+namespace detail {
+
+// members shared by the integer specializations that are described completely by the type itself
+template <typename T, bool Signed>
+struct integer_numeric_limits {
+    static constexpr bool is_specialized = true;
+
+    static constexpr bool is_signed  = Signed;
+    static constexpr bool is_integer = true;
+    static constexpr bool is_exact   = true;
+    static constexpr int radix       = 2;
+
+    static constexpr int digits       = static_cast<int>(CHAR_BIT * sizeof(T) - static_cast<unsigned>(is_signed));
+    static constexpr int digits10     = digits * 3 / 10;
+    static constexpr int max_digits10 = 0;
+
+    static constexpr auto max() noexcept -> T
+    {
+        // 2^digits - 1 without overflow
+        return static_cast<T>((((static_cast<T>(1) << (digits - 1)) - 1) << 1) + 1);
+    }
+    static constexpr auto min() noexcept -> T { return is_signed ? static_cast<T>(-max() - 1) : static_cast<T>(0); }
+    static constexpr auto lowest() noexcept -> T { return min(); }
+    static constexpr auto epsilon() noexcept -> T { return T{}; }
+    static constexpr auto round_error() noexcept -> T { return T{}; }
+
+    static constexpr int min_exponent   = 0;
+    static constexpr int min_exponent10 = 0;
+    static constexpr int max_exponent   = 0;
+    static constexpr int max_exponent10 = 0;
+
+    static constexpr bool has_infinity             = false;
+    static constexpr bool has_quiet_NaN            = false; // NOLINT
+    static constexpr bool has_signaling_NaN        = false; // NOLINT
+    static constexpr bool has_denorm_loss          = false;
+    static constexpr float_denorm_style has_denorm = denorm_absent;
+
+    static constexpr auto infinity() noexcept -> T { return T{}; }
+    static constexpr auto quiet_NaN() noexcept -> T { return T{}; }     // NOLINT
+    static constexpr auto signaling_NaN() noexcept -> T { return T{}; } // NOLINT
+    static constexpr auto denorm_min() noexcept -> T { return T{}; }
+
+    static constexpr bool is_iec559  = false;
+    static constexpr bool is_bounded = true;
+    static constexpr bool is_modulo  = not is_signed;
+
+    static constexpr bool traps                    = true;
+    static constexpr bool tinyness_before          = false;
+    static constexpr float_round_style round_style = round_toward_zero;
+};
+
+} // namespace detail
+
+template <>
+struct numeric_limits<wchar_t> : detail::integer_numeric_limits<wchar_t, (wchar_t(-1) < wchar_t(0))> { };
+
+template <>
+struct numeric_limits<char16_t> : detail::integer_numeric_limits<char16_t, false> { };
+
+template <>
+struct numeric_limits<char32_t> : detail::integer_numeric_limits<char32_t, false> { };
+
 template <>
 struct numeric_limits<short> {
     static constexpr bool is_specialized = true;
